@@ -154,6 +154,27 @@ def spec_parse(drv, text, atts):
             'natt': r['natt'], 'filled': filled}
 
 
+def jloads_check(drv, text):
+    """J.loads (the concrete Lean reader behind C01.loads_dumps / roundtrip_concrete) against the real
+    json.loads on the JSON text of an encoded frame.  -> None (nothing to compare) / True / (False, info)"""
+    h = drv.ask({'op': 'dechdr', 'text': C.s2w(text), 'cls': C.digit_table(text)})
+    if 'exc' in h or not h['rest']:
+        return None
+    rest = C.w2s(h['rest'])
+    try:
+        v = P().Packet.json.loads(rest)
+    except Exception:    # noqa
+        return None
+    r = drv.ask({'op': 'jloads', 'text': h['rest']})
+    if 'exc' in r:
+        return (False, {'json': rest, 'impl': repr(v), 'model': r['exc']})
+    try:
+        m = C.w2j(r['value'])
+    except Exception as ex:    # noqa
+        return (False, {'json': rest, 'impl': repr(v), 'model': 'unreadable: %r' % ex})
+    return True if C.same(m, v) else (False, {'json': rest, 'impl': repr(v), 'model': repr(m)})
+
+
 def dec_equal(a, b):
     if ('exc' in a) != ('exc' in b):
         return False
@@ -205,7 +226,9 @@ def norm_ns(ns):
 def run(ctx):
     C.proof_step(ctx, ['Python json.dumps/json.loads on the value domain: compared character by character '
                        'with the Lean printer J.dumps on every encode case; loads enters the model as a '
-                       'finite table produced by the real json.loads (hypothesis hrt of C01.roundtrip)',
+                       'finite table produced by the real json.loads (hypothesis hrt of C01.roundtrip); for '
+                       'C01.roundtrip_concrete the Lean reader J.loads is compared with json.loads on the JSON text '
+                       'of every encoded frame',
                        'str.isdigit()/int() on non-ASCII characters: supplied per run as a table'])
     rng = ctx.rng
     n_enc = ctx.scale(1500, 30000)
@@ -280,6 +303,7 @@ def run(ctx):
     # ---- decode correspondence: encoded frames (with all hand-back variants), mutations, noise
     drv = C.Driver('codec')
     ndec = 0
+    n_jl = 0
     try:
         todo = []
         for text, atts, origin, wf in frames[: ctx.scale(800, 20000)]:
@@ -310,6 +334,12 @@ def run(ctx):
                               {'text': text, 'atts': [a.hex() for a in atts], 'impl': repr(real),
                                'model': repr(model)}, no_input=(origin not in ('encoded',)))
             if origin == 'encoded':
+                jl = jloads_check(drv, text)
+                if jl is not None:
+                    n_jl += 1
+                    if jl is not True:
+                        ctx.violation('correspondence', 'Lean JSON reader J.loads differs from json.loads on an '
+                                      'encoded frame (C01.roundtrip_concrete no longer tied)', jl[1], no_input=True)
                 # the specification's grammar-directed parser reads the same packet from the frame
                 sp = spec_parse(drv, text, atts)
                 n_spec += 1
@@ -341,7 +371,7 @@ def run(ctx):
                 'its short/long hand-back variants, grammar mutations and noise decoded by both. non-trivial = '
                 'distinct well-formed packet with a bytes leaf at depth >= 2 or >= 2 optional header fields',
         'samples': samples, 'traces_validated_against_impl': evals + ndec,
-        'spec_codec_comparisons': n_spec,
+        'spec_codec_comparisons': n_spec, 'json_reader_comparisons': n_jl,
     })
     ctx.assumptions += ['lone surrogates are not generated (Lean Char cannot hold them)',
                         'non-finite floats are outside the domain']
